@@ -20,7 +20,7 @@ import pipegen
 import terms
 
 PID = "C11"
-PROPS = ["PfModel.Props.C11", "PfModel.Props.C11Ext", "PfModel.Props.C11Comp", "PfModel.Props.C11Val", "PfModel.Props.C11Auto"]
+PROPS = ["PfModel.Props.C11", "PfModel.Props.C11Ext", "PfModel.Props.C11Comp", "PfModel.Props.C11Val", "PfModel.Props.C11Auto", "PfModel.Props.C11Scope"]
 DRIVER = "C11"
 RULE = ("call DAGs of 1-6 term-building functions (pipegen; nullary p=0.2, functions whose parameters are all defaulted/bound, tuple "
         "outputs, renames, bound values) and well-formed map pipelines of 1-4 functions (mapgen); for every pipeline every non-empty "
@@ -33,6 +33,8 @@ RULE = ("call DAGs of 1-6 term-building functions (pipegen; nullary p=0.2, funct
         "class cut(root/interior/mixed/empty/none) x needed-function(nullary/all-defaulted/bound-only/plain), tuple use and nested S occurs "
         "(counters class:*); other routes per case: subpipeline object, thread pool, resume in a run folder, narrowed resume after a FULL "
         "run, widened resume after a narrower request (the last two judged only when they return; refusals counted); "
+        "scoped call DAGs (scope_desc: every name / part of the names under one scope, or two scopes) whose provided VALUES - map inputs, run "
+        "kwargs, on every entry point and route - are spelled nested ({scope: {name: v}}), mixed or flat (nest_plan; counters spelling:*); "
         "non-trivial = the needed set is a proper subset of the pipeline or the cut contains an interior name or a needed function has "
         "no root-argument ancestor; distinct by (pipeline, S, I, entry)")
 ASSUMPTIONS = ["networkx graph construction and traversal are mirrored by the model's index graph (prodIdx/predsIdx/succsIdx); only sets of kept functions are compared",
@@ -48,6 +50,9 @@ ASSUMPTIONS = ["networkx graph construction and traversal are mirrored by the mo
                "(more names: correspondence item); an over-provided `map` request that is refused names every over-provided name in the code and in "
                "the model (`extras`; fewer: correspondence item), one that is answered must agree with the answering model `mapSubLenient`; the global "
                "value clause for map (partial run = full run on S), proved only locally, is additionally checked MODEL against MODEL on every map case",
+               "scoped names are plain strings for the model (`<scope>.<name>`); the nested spelling of provided values is flattened by the model "
+               "(`PF.Sub.flatInputs` = `PF.Rw.flattenKw` over the full pipeline's parameter scopes, entry `map.sub` with `given`) before the selection; "
+               "`run(o, kwargs)` in the nested spelling is compared with the flat model request; only names whose scope is a parameter scope are nested",
                "interpreted constant functions (VERIF_CONST policy `all`): the model never inspects values, so its answers are compared through terms.canon"]
 
 
@@ -286,6 +291,75 @@ def bind_all(f):
     f["defaults"] = [d for d in f.get("defaults", []) if d[0] not in _bound(f)]
 
 
+# ------------------------------------------------------------------------------------------ scoped names, spelling of the provided names
+SCOPES = ("sc", "sd")
+
+
+def scope_desc(rng, desc):
+    """The same call DAG with scoped names (`Pipeline(..., scope=)` / `update_scope`): pipeline-level names `n` become `<scope>.<n>` - every
+    name under one scope, a random part of the names, or the names spread over two scopes; the wrapped functions keep their own parameter names."""
+    funcs = copy.deepcopy(desc["funcs"])
+    names = sorted({q for f in funcs for q, _ in f["params"]} | {o for f in funcs for o in f["outputs"]})
+    mode = rng.choice(["all", "all", "some", "two"])
+    rho = {}
+    for n in names:
+        if mode == "some" and rng.random() < 0.35:
+            continue
+        rho[n] = (rng.choice(SCOPES) if mode == "two" else SCOPES[0]) + "." + n
+    for f in funcs:
+        f["params"] = [[rho.get(q, q), orig] for q, orig in f["params"]]
+        f["outputs"] = [rho.get(o, o) for o in f["outputs"]]
+        f["defaults"] = [[rho.get(k, k), v] for k, v in f.get("defaults", [])]
+        f["bound"] = [[rho.get(k, k), v] for k, v in f.get("bound", [])]
+    return {"funcs": funcs}
+
+
+def param_scopes(funcs):
+    """`PipeFunc.parameter_scopes` of every function: what `Pipeline._flatten_scopes` flattens"""
+    return {q.split(".", 1)[0] for f in funcs for q, _ in f["params"] if "." in q}
+
+
+def nest_plan(rng, funcs, I):
+    """which of the provided names are given in the nested spelling `{scope: {name: v}}` (all that can be / some / none)"""
+    ps = param_scopes(funcs)
+    can = [k for k in I if "." in k and k.split(".", 1)[0] in ps]
+    r = rng.random()
+    if r < 0.55:
+        return sorted(can)
+    if r < 0.85:
+        return sorted(k for k in can if rng.random() < 0.5)
+    return []
+
+
+def spell(d, nest):
+    """the dict `d` (flat names) with the names of `nest` moved into a dictionary under their scope"""
+    if not nest:
+        return dict(d)
+    out = {}
+    for k, v in d.items():
+        if k in nest:
+            sc, n = k.split(".", 1)
+            out.setdefault(sc, {})[n] = v
+        else:
+            out[k] = v
+    return out
+
+
+def given_of(pairs, nest):
+    """model request spelling of `[[name, value]]` under the plan `nest` (driver `getKwArg`): `[scope, {"scope": [[name, value]]}]`"""
+    out, groups = [], {}
+    for k, v in pairs:
+        if k in nest:
+            sc, n = k.split(".", 1)
+            if sc not in groups:
+                groups[sc] = []
+                out.append([sc, {"scope": groups[sc]}])
+            groups[sc].append([n, v])
+        else:
+            out.append([k, v])
+    return out
+
+
 def special_func(rng, name, out, cls, root, mk):
     """a function of class `cls` (nullary / alldef / bound / plain) making `out`; `root`: the name of its parameter(s); `mk`: _f or _mf"""
     if cls == "nullary":
@@ -473,7 +547,7 @@ def _map_obs(fn, log, inputs, **kw):
 _VARIANT_AT = {"subobj": 0.0, "par": 0.31, "resume": 0.5, "narrowed": 0.6, "widened": 0.7}
 
 
-def obs_variants(ctx, p, log, inputs, S, I, rng, internal=None, run_kw=None, full=None, narrower=None, which=None):
+def obs_variants(ctx, p, log, inputs, S, I, rng, internal=None, run_kw=None, full=None, narrower=None, which=None, nest=()):
     """Item 4: other ways to the same partial run.  `subobj`: Pipeline.subpipeline(I, S) as an object, then `.map(inputs)` and
     `.run(o, kwargs)`; `par`: map(output_names=S, parallel=True) on a thread pool; `resume`: map(output_names=S, run_folder=d)
     twice, the second time with cleanup=False; `narrowed`: the FULL map (inputs `full[0]`, internal shapes `full[1]`) into d, then
@@ -492,7 +566,7 @@ def obs_variants(ctx, p, log, inputs, S, I, rng, internal=None, run_kw=None, ful
             if run_kw is not None and len(S) == 1:
                 log.clear()
                 try:
-                    v = pipegen.quiet(sub.run, S[0], kwargs={k: terms.dec(x) for k, x in run_kw.items()})
+                    v = pipegen.quiet(sub.run, S[0], kwargs=spell({k: terms.dec(x) for k, x in run_kw.items()}, nest))
                     ob["run"] = {"value": terms.enc(v), "calls": sorted(log.names())}
                 except Exception as e:  # noqa: BLE001
                     ob["run"] = {"err": exc_enum(e), "msg": str(e), "calls": sorted(log.names())}
@@ -637,10 +711,10 @@ def judge_variants(ctx, case, impl, want, needed, ncalls_ok):
     return True
 
 
-def obs_run(p, log, o, kw):
+def obs_run(p, log, o, kw, nest=()):
     log.clear()
     try:
-        v = pipegen.quiet(p.run, o, kwargs={k: terms.dec(x) for k, x in kw.items()})
+        v = pipegen.quiet(p.run, o, kwargs=spell({k: terms.dec(x) for k, x in kw.items()}, nest))
         return {"value": terms.enc(v), "calls": sorted(log.names())}
     except Exception as e:  # noqa: BLE001
         return {"err": exc_enum(e), "msg": str(e), "calls": sorted(log.names())}
@@ -676,8 +750,16 @@ def mfuncs_of(funcs):
              "defaults": f.get("defaults", []), "bound": f.get("bound", [])} for f in funcs]
 
 
-def pipe_requests(ctx, desc, rng, items):
-    """Build the cases of one call DAG: runs the implementation, queues the model requests."""
+def _msub_req(funcs, I, S, auto, nest):
+    a = {"funcs": mfuncs_of(funcs), "inputs": [[k, kwval(k)] for k in I], "outputs": S, "auto": auto}
+    if nest is not None:
+        a["given"] = given_of(a["inputs"], nest)         # the inputs as spelled: the driver runs `mapSubScoped` (flatten first)
+    return {"m": "map.sub", "a": a}
+
+
+def pipe_requests(ctx, desc, rng, items, scoped=False):
+    """Build the cases of one call DAG: runs the implementation, queues the model requests.  `scoped`: the names are scoped and every
+    dictionary of provided VALUES (map inputs, run kwargs) is given in a drawn spelling (`nest_plan`), recorded as case["nest"]."""
     funcs = desc["funcs"]
     p, log = pipegen.build(desc)
     outs = pipegen.all_outputs(desc)
@@ -688,25 +770,27 @@ def pipe_requests(ctx, desc, rng, items):
         for kind, I in cuts_for(rng, funcs, S):
             I = list(dict.fromkeys(I))
             ref = ref_needed(funcs, S, set(I))
-            inputs = {k: terms.dec(kwval(k)) for k in I}
             auto = rng.random() < 0.3
             case = {"stream": "pipe", "funcs": funcs, "S": S, "I": I, "kind": kind, "auto": auto}
+            nest = ()
+            if scoped:
+                nest = case["nest"] = nest_plan(rng, funcs, I)
+            inputs = spell({k: terms.dec(kwval(k)) for k in I}, nest)
             impl = {"sub": obs_subpipeline(p, I, S), "map": obs_map(p, log, inputs, S, auto)}
-            reqs = [{"m": "pipe.sub", "a": {"funcs": funcs, "inputs": I, "outputs": S}},
-                    {"m": "map.sub", "a": {"funcs": mfuncs_of(funcs), "inputs": [[k, kwval(k)] for k in I], "outputs": S, "auto": auto}}]
+            reqs = [{"m": "pipe.sub", "a": {"funcs": funcs, "inputs": I, "outputs": S}}, _msub_req(funcs, I, S, auto, nest if scoped else None)]
             if len(S) == 1 and not kind.startswith("bad") and kind != "drop-root":
-                impl["run"] = obs_run(p, log, S[0], {k: kwval(k) for k in I})
+                impl["run"] = obs_run(p, log, S[0], {k: kwval(k) for k in I}, nest)
                 reqs.append({"m": "pipe.call", "a": {"funcs": funcs, "kw": [[k, kwval(k)] for k in I], "S": S, "out": S[0]}})
             elif len(S) == 1 and kind == "bad:tuple-part":
-                impl["run"] = obs_run(p, log, S[0], {k: kwval(k) for k in I})
+                impl["run"] = obs_run(p, log, S[0], {k: kwval(k) for k in I}, nest)
             if not ref["missing"] and not ref["clash"] and not ref["surplus"] and not kind.startswith("bad"):
                 # the full run's inputs: I (when it is a root-only cut) and every other root the full pipeline requires
                 full = None
                 if all(i not in prod for i in I):
                     extra = [r for r in allroots if r not in I and r not in ref["roots"] and (r not in alldflt or rng.random() < 0.3)]
-                    full = ({k: terms.dec(kwval(k)) for k in list(I) + extra}, None)
+                    full = (spell({k: terms.dec(kwval(k)) for k in list(I) + extra}, nest), None)
                 impl["variants"] = obs_variants(ctx, p, log, inputs, S, I, rng, run_kw={k: kwval(k) for k in I}, full=full,
-                                                narrower=narrower_of(rng, funcs, S, I))
+                                                narrower=narrower_of(rng, funcs, S, I), nest=nest)
             items.append((case, ref, impl, reqs))
     # auto_subpipeline without output_names: everything downstream of the provided names
     autos = []
@@ -725,11 +809,13 @@ def pipe_requests(ctx, desc, rng, items):
         if I and I not in autos:
             autos.append(I)
     for I in autos:
-        inputs = {k: terms.dec(kwval(k)) for k in I}
         case = {"stream": "pipe", "funcs": funcs, "S": None, "I": I, "kind": "auto-downstream", "auto": True}
+        nest = ()
+        if scoped:
+            nest = case["nest"] = nest_plan(rng, funcs, I)
+        inputs = spell({k: terms.dec(kwval(k)) for k in I}, nest)
         impl = {"sub": obs_subpipeline(p, I, None), "map": obs_map(p, log, inputs, None, True)}
-        reqs = [{"m": "pipe.sub", "a": {"funcs": funcs, "inputs": I, "outputs": None}},
-                {"m": "map.sub", "a": {"funcs": mfuncs_of(funcs), "inputs": [[k, kwval(k)] for k in I], "outputs": None, "auto": True}}]
+        reqs = [{"m": "pipe.sub", "a": {"funcs": funcs, "inputs": I, "outputs": None}}, _msub_req(funcs, I, None, True, nest if scoped else None)]
         items.append((case, ref_auto(funcs, I), impl, reqs))
     # output_names only (no inputs): subpipeline alone
     S = [rng.choice(outs)]
@@ -789,6 +875,16 @@ def judge_pipe(ctx, case, ref, impl, resps):
     legacy = resps[0]["r"]["legacy"]
     ctx.count(f"pipe:kind:{kind}")
     count_entry(ctx, "pipe", case)
+    if "nest" in case and I is not None:
+        nest = case["nest"]
+        can = [k for k in I if "." in k and k.split(".", 1)[0] in param_scopes(funcs)]
+        sp = "no-scoped-name-provided" if not can else ("flat" if not nest else ("nested" if len(nest) == len(can) else "mixed"))
+        ctx.count(f"spelling:{sp}")
+        ctx.count(f"spelling:{sp}:{'auto-noS' if S is None else ('auto+S' if case['auto'] else 'S-only')}")
+        flat = resps[1]["r"].get("now", {}).get("flat")
+        if flat is not None and sorted(flat) != sorted(I):
+            ctx.violation(case, f"the model flattens the provided names to {sorted(flat)}, the request provides {sorted(I)}", found_input=False,
+                          item="correspondence:scope-flatten", impl=sorted(I), model=sorted(flat))
     if kind == "auto-downstream":
         mmap = model_map(resps[1]["r"])
         ctx.record(case, nontrivial=bool(I))
@@ -1266,6 +1362,16 @@ MAP_CORPUS = [
 
 
 N_PIPE, N_PIPE_DIRECTED, N_MAP = (86, 1200), (10, 120), (74, 1000)       # (quick, thorough) pipelines per stream
+N_SCOPED = (8, 110)                                                       # scoped call DAGs (drawn AFTER the other streams: their draws are unchanged)
+
+# scoped names: a chain with a defaulted root under one scope; a diamond over two scopes with a tuple output and an un-scoped root
+SCOPED_CORPUS = [
+    {"funcs": [_f("f", ["sc.a"], ["sc.y"]), _f("g", ["sc.y", "sc.b"], ["sc.z"], defaults=[["sc.b", {"s": "dflt:sc.b"}]]), _f("h", ["sc.z"], ["sc.w"])]},
+    {"funcs": [_f("f0", ["sc.r0", "r1"], ["sc.o0a", "sd.o0b"]), _f("f1", ["sc.o0a", "sd.r2"], ["sd.o1"]), _f("f2", ["sd.o0b", "sd.o1"], ["o2"])]},
+]
+for _d in SCOPED_CORPUS:
+    for _g in _d["funcs"]:
+        _g["params"] = [[q, q.split(".", 1)[-1]] for q, _ in _g["params"]]
 
 
 def run(ctx):
@@ -1291,6 +1397,10 @@ def _run(ctx):
         map_requests(ctx, copy.deepcopy(d), rng, items)
     for _ in range(ctx.n(N_MAP[0], N_MAP[1])):
         map_requests(ctx, gen_map(rng), rng, items)
+    for d in SCOPED_CORPUS:
+        pipe_requests(ctx, copy.deepcopy(d), rng, items, scoped=True)
+    for k in range(ctx.n(N_SCOPED[0], N_SCOPED[1])):
+        pipe_requests(ctx, scope_desc(rng, gen_directed_pipe(rng) if k % 4 == 3 else gen_pipe(rng)), rng, items, scoped=True)
     from props import c11_comp                         # round 3: `Computable` decided by the model over the full pipeline
     c11_comp.reset()
     comp = [c11_comp.requests(it[0], it[3]) if c11_comp.applies(it[0]) else [] for it in items]
@@ -1312,19 +1422,23 @@ def replay(ctx, case):
     if case["stream"] == "pipe":
         p, log = pipegen.build({"funcs": case["funcs"]})
         I, S = case["I"], case["S"]
+        nest = case.get("nest", ())
         print("reference:", ref_needed(case["funcs"], S, set(I or [])) if S else None)
         print("implementation subpipeline:", obs_subpipeline(p, I, S))
         if I is not None:
-            print("implementation map:", obs_map(p, log, {k: terms.dec(kwval(k)) for k in I}, S, case["auto"]))
+            if "nest" in case:
+                print("inputs as spelled:", sorted(spell({k: k for k in I}, nest).items(), key=repr))
+            print("implementation map:", obs_map(p, log, spell({k: terms.dec(kwval(k)) for k in I}, nest), S, case["auto"]))
+            print("model map:", ctx.lean([_msub_req(case["funcs"], I, S, case["auto"], nest if "nest" in case else None)])[0]["r"])
         print("model:", ctx.lean([{"m": "pipe.sub", "a": {"funcs": case["funcs"], "inputs": I, "outputs": S}}])[0]["r"])
         if I is not None and S:
             funcs = case["funcs"]
             ref = ref_needed(funcs, S, set(I))
             prod = {o for f in funcs for o in f["outputs"]}
             roots = sorted({q for f in funcs for q, _ in f["params"] if q not in prod and q not in _bound(f)})
-            full = ({k: terms.dec(kwval(k)) for k in list(I) + [r for r in roots if r not in I and r not in ref["roots"]]}, None) \
+            full = (spell({k: terms.dec(kwval(k)) for k in list(I) + [r for r in roots if r not in I and r not in ref["roots"]]}, nest), None) \
                 if all(i not in prod for i in I) else None
-            _replay_variants(ctx, p, log, {k: terms.dec(kwval(k)) for k in I}, S, I, funcs, None, full)
+            _replay_variants(ctx, p, log, spell({k: terms.dec(kwval(k)) for k in I}, nest), S, I, funcs, None, full)
     else:
         desc = case["desc"]
         p, log, internal, full_inputs, full_out, full_enc, full_calls = map_full(desc)
